@@ -399,3 +399,95 @@ func sortedKeys[V any](m map[string]V) []string {
 	sort.Strings(ks)
 	return ks
 }
+
+// withHelpers returns fd followed by the functions of the same package that fd calls (directly or through
+// other such functions, up to depth levels): an extracted helper is part of the function it was extracted
+// from, and rules that look for a construct "in f" look in these too. Exported entry points other than fd
+// itself are not followed.
+func (c *Ctx) withHelpers(rel string, fd *ast.FuncDecl, depth int) []*ast.FuncDecl {
+	p := c.Pkgs[rel]
+	if p == nil || fd == nil {
+		return nil
+	}
+	info := p.TypesInfo
+	byFunc := map[*types.Func]*ast.FuncDecl{}
+	for _, d := range c.allFuncDecls(rel) {
+		if fn, ok := info.Defs[d.Name].(*types.Func); ok {
+			byFunc[fn] = d
+		}
+	}
+	out := []*ast.FuncDecl{fd}
+	seen := map[*ast.FuncDecl]bool{fd: true}
+	frontier := []*ast.FuncDecl{fd}
+	for level := 0; level < depth && len(frontier) > 0; level++ {
+		var next []*ast.FuncDecl
+		for _, f := range frontier {
+			ast.Inspect(f.Body, func(x ast.Node) bool {
+				call, ok := x.(*ast.CallExpr)
+				if !ok {
+					return true
+				}
+				var fn *types.Func
+				switch fun := ast.Unparen(call.Fun).(type) {
+				case *ast.Ident:
+					fn, _ = info.Uses[fun].(*types.Func)
+				case *ast.SelectorExpr:
+					fn, _ = info.Uses[fun.Sel].(*types.Func)
+				}
+				if d := byFunc[fn]; d != nil && !seen[d] && !d.Name.IsExported() {
+					seen[d] = true
+					out = append(out, d)
+					next = append(next, d)
+				}
+				return true
+			})
+		}
+		frontier = next
+	}
+	return out
+}
+
+// nodeWithHelpers is withHelpers for a piece of a function (an arm of a switch, a statement): the node itself
+// followed by the bodies of the unexported functions of the package it calls, to the given depth.
+func (c *Ctx) nodeWithHelpers(rel string, n ast.Node, depth int) []ast.Node {
+	p := c.Pkgs[rel]
+	if p == nil || n == nil {
+		return nil
+	}
+	info := p.TypesInfo
+	byFunc := map[*types.Func]*ast.FuncDecl{}
+	for _, d := range c.allFuncDecls(rel) {
+		if fn, ok := info.Defs[d.Name].(*types.Func); ok {
+			byFunc[fn] = d
+		}
+	}
+	out := []ast.Node{n}
+	seen := map[*ast.FuncDecl]bool{}
+	frontier := []ast.Node{n}
+	for level := 0; level < depth && len(frontier) > 0; level++ {
+		var next []ast.Node
+		for _, f := range frontier {
+			ast.Inspect(f, func(x ast.Node) bool {
+				call, ok := x.(*ast.CallExpr)
+				if !ok {
+					return true
+				}
+				var fn *types.Func
+				switch fun := ast.Unparen(call.Fun).(type) {
+				case *ast.Ident:
+					fn, _ = info.Uses[fun].(*types.Func)
+				case *ast.SelectorExpr:
+					fn, _ = info.Uses[fun.Sel].(*types.Func)
+				}
+				if d := byFunc[fn]; d != nil && !seen[d] && !d.Name.IsExported() {
+					seen[d] = true
+					out = append(out, d.Body)
+					next = append(next, d.Body)
+				}
+				return true
+			})
+		}
+		frontier = next
+	}
+	return out
+}
